@@ -14,6 +14,12 @@ class Untranslatable(Exception):
     pass
 
 
+class Halt(Exception):
+    """a designated callee ends the path: the rest of the function is outside the obligation"""
+    def __init__(self, pc, tag):
+        self.pc, self.tag = pc, tag
+
+
 # ------------------------------------------------------------------------------- MIR loading
 
 class Fn:
@@ -500,9 +506,14 @@ class Interp:
             return [(pc, v)]
         for upat, ufn in self.uf.items():
             if upat == c or (upat.startswith('re:') and re.fullmatch(upat[3:], c)):
-                r = ufn(self, d) if not getattr(ufn, 'wants_pc', False) else ufn(self, d, pc)
+                if getattr(ufn, 'wants_raw', False):
+                    r = ufn(self, d, pc, argv)
+                else:
+                    r = ufn(self, d) if not getattr(ufn, 'wants_pc', False) else ufn(self, d, pc)
                 if isinstance(r, tuple) and len(r) == 2 and r[0] == 'fork':
                     return [(z3.And(pc, cond), val) for cond, val in r[1]]
+                if isinstance(r, tuple) and len(r) == 2 and r[0] == 'halt':
+                    raise Halt(pc, r[1])
                 return [(pc, r)]
         for pat, (crate, fpat) in self.extra.items():
             if re.fullmatch(pat, c):
@@ -667,7 +678,13 @@ class Interp:
                         or (m and re.fullmatch(r'Option::<.*>::unwrap', m[1])):
                     dst, callee, args, tgt = m
                     argv = [self.operand(env, a) for a in split_args(args)]
-                    outs = self.resolve(callee, argv, pc, depth)
+                    try:
+                        outs = self.resolve(callee, argv, pc, depth)
+                    except Halt as h:
+                        if depth != 0:
+                            raise
+                        results.append((h.pc, ('halted', h.tag)))
+                        break
                     for pc2, val in outs:
                         e2 = dict(env)
                         self.parse_place(e2, dst)[1](val)
